@@ -10,6 +10,12 @@ fn lint_sig(l: &Lint) -> String {
     format!("{}..{} {} | {} | {:?}", l.span().start, l.span().end, l.lint_kind(), l.message(), l.suggestions().iter().map(|s| (s.kind() as u8, s.get_replacement_text())).collect::<Vec<_>>())
 }
 
+/// A lint of the spell checker itself (other rules also use the Spelling kind, e.g. `im` -> `I'm`).
+fn is_spellcheck(l: &Lint) -> bool {
+    let m = l.message();
+    l.lint_kind() == "Spelling" && (m.starts_with("Did you mean to spell \u{201C}") || (m.starts_with("Did you mean \u{201C}") && m.ends_with("\u{201D}?")))
+}
+
 fn clone_lint(l: &Lint) -> Option<Lint> {
     Lint::from_json(l.to_json()).ok()
 }
@@ -140,10 +146,19 @@ pub fn worker(ctx: &mut Ctx) {
                 let chars: Vec<char> = text.chars().collect();
                 // words imported earlier are never flagged as misspelt
                 for l in &lints {
-                    if l.lint_kind() == "Spelling" {
+                    if is_spellcheck(l) {
                         let pt = l.get_problem_text();
                         if imported.iter().any(|w| *w == pt) {
-                            rep_in.finding("C16", "imported-word-flagged", text.len(), || json!({"text": text, "calls": trace.iter().rev().take(10).rev().collect::<Vec<_>>()}), || format!("{pt:?} was imported as a custom word but is reported as misspelt"));
+                            // a word the curated dictionary tags with another dialect keeps its tag
+                            let ptc: Vec<char> = pt.chars().collect();
+                            let other = {
+                                use harper_core::Dictionary;
+                                let want: harper_core::Dialect = wasm_dialect(dialect_i).into();
+                                harper_core::FstDictionary::curated().get_word_metadata(&ptc).and_then(|m| m.dialect).map(|d| d != want).unwrap_or(false)
+                            };
+                            let variant = imported.iter().any(|x| *x != pt && x.to_lowercase() == pt.to_lowercase());
+                            let sig = if other { "imported-word-flagged@other-dialect-word" } else if variant { "imported-word-flagged@case-variant-imported-too" } else { "imported-word-flagged" };
+                            rep_in.finding("C16", sig, text.len(), || json!({"text": text, "calls": trace.iter().rev().take(10).rev().collect::<Vec<_>>()}), || format!("{pt:?} was imported as a custom word but is reported as misspelt"));
                         }
                     }
                 }
@@ -211,7 +226,7 @@ pub fn worker(ctx: &mut Ctx) {
                     }
                     4 => {
                         // import_words: a flagged custom word stops being flagged; everything else stays
-                        let spell: Vec<&Lint> = lints.iter().filter(|l| l.lint_kind() == "Spelling").collect();
+                        let spell: Vec<&Lint> = lints.iter().filter(|l| is_spellcheck(l)).collect();
                         if let Some(l) = spell.first() {
                             let w = l.get_problem_text();
                             let before: Vec<String> = lints.iter().map(lint_sig).collect();
@@ -221,8 +236,15 @@ pub fn worker(ctx: &mut Ctx) {
                             let after_l = lin.lint(text.clone(), lang);
                             let after: Vec<String> = after_l.iter().map(lint_sig).collect();
                             for al in &after_l {
-                                if al.lint_kind() == "Spelling" && al.get_problem_text() == w {
-                                    rep_in.finding("C16", "import_words.still-flagged", text.len(), || json!({"text": text, "word": w}), || format!("{w:?} is still reported as misspelt after import_words"));
+                                if is_spellcheck(al) && al.get_problem_text() == w {
+                                    let wc: Vec<char> = w.chars().collect();
+                                    let other = {
+                                        use harper_core::Dictionary;
+                                        let want: harper_core::Dialect = wasm_dialect(dialect_i).into();
+                                        harper_core::FstDictionary::curated().get_word_metadata(&wc).and_then(|m| m.dialect).map(|d| d != want).unwrap_or(false)
+                                    };
+                                    let variant_before = imported.iter().any(|x| *x != w && x.to_lowercase() == w.to_lowercase());
+                                    rep_in.finding("C16", if other { "import_words.still-flagged@other-dialect-word" } else if variant_before { "import_words.still-flagged@case-variant-imported-before" } else { "import_words.still-flagged" }, text.len(), || json!({"text": text, "word": w}), || format!("{w:?} is still reported as misspelt after import_words"));
                                 }
                             }
                             let exported = lin.export_words();
